@@ -25,6 +25,12 @@ fn g_iint(sc: &mut Scratch) -> Option<Mini> {
 fn g_float(sc: &mut Scratch) -> Option<Mini> {
     Some(Mini::Float(any_finite_f64()))
 }
+/// finite float beyond the i64 range on either side (|f| >= 1e19): never equal to an integer
+fn g_hugefloat(sc: &mut Scratch) -> Option<Mini> {
+    let f = any_finite_f64();
+    kani::assume(f >= 1e19 || f <= -1e19);
+    Some(Mini::Float(f))
+}
 /// any string of <= 2 Unicode scalar values (thorough tier)
 fn g_str(sc: &mut Scratch) -> Option<Mini> {
     Some(Mini::Str(leak_str(any_string(2))))
@@ -144,6 +150,8 @@ c04_pair!(c04_bool_obj, g_bool, g_obj, 4);
 c04_pair!(c04_int_int, g_int, g_int, 3, true, true);
 c04_pair!(c04_iint_float, g_iint, g_float, 3, true, true);
 c04_pair!(c04_float_float, g_float, g_float, 3, true, true);
+// any i64 (also outside the I-JSON range, e.g. i64::MAX) against a float beyond the i64 range
+c04_pair!(c04_int_hugefloat, g_int, g_hugefloat, 3, false, true);
 c04_pair!(c04_int_str, g_int, g_str1, 6);
 c04_pair!(c04_int_arr, g_int, g_arr, 4);
 c04_pair!(c04_int_obj, g_int, g_obj, 4);
@@ -361,3 +369,117 @@ c04_ops!(c04_ops_str_str, 6, |x, y| {
     sym_scalar(&mut b2, 0, 1);
     (Mini::Str(str_over(leak(b1), 1)), Mini::Str(str_over(leak(b2), 1)))
 }, |m: &Mini| match m { Mini::Str(s) => Literal::String(String::from(*s)), _ => Literal::Null });
+
+// C15/C04: the literal `null` denotes the data type's `null()` (trait accessor), not its
+// `Default` (Mini's default is Bool(true)): `null == @` holds exactly for a null node.
+macro_rules! c15_null_lit {
+    ($name:ident, $node:expr, $is_null:expr) => {
+        proof!($name, 4, {
+            let root = Mini::Null;
+            let node: Mini = $node;
+            let mut e = m_sqs_index(0);
+            let c_eq = MCmp { tag: OP_EQ, a: mc_lit(Literal::Null), b: mc_sq(SQ_CURRENT, sqs_empty(&mut e)) };
+            assert!(run_cmp(&c_eq, &root, &node) == $is_null, "`null == @` must hold exactly when the node is null");
+            forget(c_eq);
+            let c_ne = MCmp { tag: OP_NE, a: mc_lit(Literal::Null), b: mc_sq(SQ_CURRENT, sqs_empty(&mut e)) };
+            assert!(run_cmp(&c_ne, &root, &node) == !$is_null, "`null != @` must be the negation of `null == @`");
+            forget(c_ne);
+            let c_lt = MCmp { tag: OP_LT, a: mc_lit(Literal::Null), b: mc_sq(SQ_CURRENT, sqs_empty(&mut e)) };
+            assert!(!run_cmp(&c_lt, &root, &node), "`null < @` never holds");
+            forget(c_lt);
+            kani::cover!(true, "end reached");
+        });
+    };
+}
+c15_null_lit!(c15_null_literal_null, Mini::Null, true);
+c15_null_lit!(c15_null_literal_bool, Mini::Bool(kani::any()), false);
+c15_null_lit!(c15_null_literal_int, Mini::Int(kani::any()), false);
+
+// C04/C05: a singular query with an index segment as comparison operand: `@[i] == c` on the
+// current node [x0, x1]. True iff element i exists (negative i from the end) and equals c;
+// an empty result is never equal to a value, and `@[i] != c` is the exact negation.
+proof!(c04_sq_index_eq, 5, {
+    let root = Mini::Null;
+    let mut sx = Scratch::new();
+    let (x0, x1, c): (i64, i64, i64) = (kani::any(), kani::any(), any_ijson());
+    sx.elems[0] = Mini::Int(x0);
+    sx.elems[1] = Mini::Int(x1);
+    let node = sx.arr(2);
+    let i: i64 = any_ijson();
+    let mut seg = m_sqs_index(i);
+    let c_eq = MCmp { tag: OP_EQ, a: mc_sq(SQ_CURRENT, sqs_vec(&mut seg, 1)), b: mc_lit(Literal::Int(c)) };
+    let spec = match rfc_index(i, 2) {
+        Some(0) => x0 == c,
+        Some(_) => x1 == c,
+        None => false,
+    };
+    assert!(run_cmp(&c_eq, &root, &node) == spec, "`@[i] == c` must hold exactly when element i exists and equals c");
+    forget(c_eq);
+    let c_ne = MCmp { tag: OP_NE, a: mc_sq(SQ_CURRENT, sqs_vec(&mut seg, 1)), b: mc_lit(Literal::Int(c)) };
+    assert!(run_cmp(&c_ne, &root, &node) == !spec, "`@[i] != c` must be the negation of `@[i] == c`");
+    forget(c_ne);
+    kani::cover!(spec && i < 0, "negative index, equal element");
+    kani::cover!(rfc_index(i, 2).is_none(), "no such element: empty result");
+    kani::cover!(!spec && rfc_index(i, 2).is_some(), "element differs");
+    forget(sx);
+});
+
+// C05 scoping: `$` inside a comparison denotes the DOCUMENT ROOT, `@` the current node.
+// `$[i] == @` with root [r0, r1] and an unrelated current node x.
+proof!(c05_cmp_root_index, 5, {
+    let mut sr = Scratch::new();
+    let (r0, r1, x): (i64, i64, i64) = (kani::any(), kani::any(), kani::any());
+    sr.elems[0] = Mini::Int(r0);
+    sr.elems[1] = Mini::Int(r1);
+    let root = sr.arr(2);
+    let node = Mini::Int(x);
+    let i: i64 = any_ijson();
+    let mut seg = m_sqs_index(i);
+    let mut e = m_sqs_index(0);
+    let c_eq = MCmp { tag: OP_EQ, a: mc_sq(SQ_ROOT, sqs_vec(&mut seg, 1)), b: mc_sq(SQ_CURRENT, sqs_empty(&mut e)) };
+    let spec = match rfc_index(i, 2) {
+        Some(0) => r0 == x,
+        Some(_) => r1 == x,
+        None => false,
+    };
+    assert!(run_cmp(&c_eq, &root, &node) == spec, "`$[i] == @` must compare element i of the document root with the current node");
+    forget(c_eq);
+    let c_lt = MCmp { tag: OP_LT, a: mc_sq(SQ_ROOT, sqs_vec(&mut seg, 1)), b: mc_sq(SQ_CURRENT, sqs_empty(&mut e)) };
+    let spec_lt = match rfc_index(i, 2) {
+        Some(0) => r0 < x,
+        Some(_) => r1 < x,
+        None => false,
+    };
+    assert!(run_cmp(&c_lt, &root, &node) == spec_lt, "`$[i] < @` must compare element i of the document root with the current node");
+    forget(c_lt);
+    kani::cover!(spec && i < 0, "negative index, equal");
+    kani::cover!(rfc_index(i, 2).is_none(), "no such root element");
+    kani::cover!(spec_lt, "root element less than the current node");
+    forget(sr);
+});
+// `$.k == @` / `@ == $.k` with root {j: b, k: r0}
+macro_rules! c05_cmp_root_name {
+    ($name:ident, $swap:expr) => {
+        proof!($name, 6, {
+            let mut sr = Scratch::new();
+            let (r0, x): (i64, i64) = (kani::any(), kani::any());
+            sr.set(0, "j", Mini::Int(kani::any()));
+            sr.set(1, "k", Mini::Int(r0));
+            let root = sr.obj(2);
+            let node = Mini::Int(x);
+            let mut seg = m_sqs_name("k");
+            let mut e = m_sqs_index(0);
+            let (ta, tb) = if $swap { (SQ_CURRENT, SQ_ROOT) } else { (SQ_ROOT, SQ_CURRENT) };
+            let va = if $swap { sqs_empty(&mut e) } else { sqs_vec(&mut seg, 1) };
+            let vb = if $swap { sqs_vec(&mut seg, 1) } else { sqs_empty(&mut e) };
+            let c_eq = MCmp { tag: OP_EQ, a: mc_sq(ta, va), b: mc_sq(tb, vb) };
+            assert!(run_cmp(&c_eq, &root, &node) == (r0 == x), "`$.k == @` must compare member k of the document root with the current node");
+            forget(c_eq);
+            kani::cover!(r0 == x, "equal");
+            kani::cover!(r0 != x, "different");
+            forget(sr);
+        });
+    };
+}
+c05_cmp_root_name!(c05_cmp_root_name, false);
+c05_cmp_root_name!(c05_cmp_cur_root_name, true);
